@@ -175,13 +175,17 @@ CONFIG = {
                       "theorems that the result is never `panic` for every input and every behaviour of the dependency calls, with a linear bound "
                       "on make() sizes (type-5 decoder ≤ 2·|input|, FinalizeTokens ≤ |input|+64); cryptobyte-only decoders are total by "
                       "construction; termination by Lean's checker. Tied to the Go code by comparing the literal models with the implementation on "
-                      "the malformed stream, and by direct no-panic / allocation / time oracles on every entry point.",
+                      "the malformed stream, and by direct no-panic / allocation / time oracles on every entry point. The literal models of the "
+                      "type-5 request decoder, the generic batch request and response decoders and unpadOriginName are moreover proved to "
+                      "compute exactly the codecs / specification of C04 and C20 (Proofs/LiteralRefine.lean, Proofs/UnpadRefine.lean), for "
+                      "every input: the two hand-written views of each decoder cannot drift apart.",
         "level_note": "Partial: dependencies (circl, go-hpke, crypto/*, cryptobyte ASN.1) not panicking on arbitrary bytes is assumed and only "
                       "observed; wall-clock hangs and resident memory are runtime facts — the theorem is termination and a make-size bound of the "
                       "model, the harness's timeout/allocation counters validate it. ed25519.Verify's public-key length is a documented precondition.",
         "trusted_base": COMMON_TB + ["dependencies are total on arbitrary bytes (observed, not proved)"],
         "assumptions": ["inputs shorter than 2^31 bytes", "ed25519 public keys are 32 bytes (documented precondition)"],
         "mem_gb": 6,
+        "extra_modules": ["PatVerif.Proofs.LiteralRefine", "PatVerif.Proofs.UnpadRefine"],
         "contradicts": "PatVerif.Props.C03",
     },
     "C01": {
